@@ -295,7 +295,7 @@ def corrupt_data(r, data):
     kind = r.choice(['unknown_name', 'unknown_name', 'drop_required', 'drop_required', 'bad_shape', 'bad_shape', 'bad_colour', 'bad_action',
                      'duplicate', 'extra_param', 'extra_param', 'delete_section', 'unknown_object',
                      # legal variations of a shipped file (must build, and behave as the varied data describes)
-                     'nest_term', 'nest_term', 'sibling_param', 'sibling_param', 'spaces_differ', 'reorder_actions', 'zero_param'])
+                     'nest_term', 'nest_term', 'sibling_param', 'sibling_param', 'spaces_differ', 'reorder_actions', 'zero_param', 'duplicate_reward_name'])
     if kind == 'unknown_name':
         e = at(d, r.choice(entries))
         e['name'] = r.choice([e['name'] + 'x', 'no_such_function', e['name'].upper(), ''])
@@ -352,6 +352,11 @@ def corrupt_data(r, data):
         a = list(d.get('action_space', ACTIONS))
         r.shuffle(a)
         d['action_space'] = a
+    elif kind == 'duplicate_reward_name':
+        # the same reward function listed twice with different values: both count
+        src = r.choice(d['reward_functions'])
+        scale = r.choice([0.5, -1.0, 2.0])
+        d['reward_functions'].append({k: (v * scale if isinstance(v, float) else v) for k, v in src.items()})
     elif kind == 'zero_param':
         cands = [(p, k) for p in entries for k, v in at(d, p).items() if isinstance(v, float)]
         if not cands:
@@ -517,7 +522,7 @@ def _judge_corrupted(ctx, i, site, ck, bad, build_real, s, actions):
             # M-config is more permissive than the real factory somewhere the statement does not cover
             if ck in ('extra_param',):
                 ctx.violate('config', 'unaccepted_parameter_not_ignored', site, real.type, i, f'{ck}: {real!r}')
-            elif ck in ('nest_term', 'sibling_param', 'spaces_differ', 'reorder_actions', 'zero_param'):
+            elif ck in ('nest_term', 'sibling_param', 'spaces_differ', 'reorder_actions', 'zero_param', 'duplicate_reward_name'):
                 ctx.violate('config', 'legal_variation_rejected', site, ck + '_' + real.type, i, f'{ck}: a legal variation of the shipped file was rejected: {real!r}')
             else:
                 ctx.undecided['real_rejects_what_mconfig_builds:' + ck] += 1
@@ -594,6 +599,15 @@ COMPONENT_CASES = [
     ('reset', 'teleport', {'shape': [6, 6]}),
     ('reset', 'memory', {'shape': [7, 7], 'colors': ['RED', 'BLUE']}),
     ('reset', 'memory_rooms', {'shape': [9, 9], 'layout': [2, 2], 'colors': ['RED', 'BLUE', 'GREEN'], 'num_beacons': 1, 'num_exits': 2}),
+    # optional parameters given without the ones declared before them
+    ('reset', 'empty', {'shape': [5, 6], 'random_exit': True}),
+    ('reset', 'empty', {'shape': [6, 5], 'random_exit': False}),
+    ('reset', 'memory_rooms', {'shape': [9, 9], 'layout': [2, 2], 'colors': ['RED', 'BLUE', 'GREEN'], 'num_exits': 3}),
+    ('reward', 'reach_exit', {'reward_off': -0.5}),
+    ('reward', 'actuate_door', {'reward_close': -0.7}),
+    ('reward', 'pickndrop', {'object_type': 'Key', 'reward_drop': -0.4}),
+    ('reward', 'getting_closer', {'object_type': 'Exit', 'reward_further': -0.3}),
+    ('visibility', 'raytracing', {'threshold': 3}),
     # values the function itself refuses when called by hand (both routes must then refuse, or behave alike)
     ('reset', 'memory', {'shape': [7, 7], 'colors': ['NONE', 'RED', 'GREEN']}),
     ('reset', 'memory', {'shape': [5, 5], 'colors': ['RED', 'NONE', 'BLUE', 'YELLOW']}),
